@@ -124,7 +124,7 @@ Qed.
 
 Lemma content_element : forall f sc pp pl b r n c1 rest1 ch c2 rest,
   b <> 33 -> b <> 63 -> b <> 47 ->
-  parse_element_with (parse_content f) (Some sc) (b :: r) = POk (n, c1, rest1) ->
+  parse_element_with f (parse_content f) (Some sc) (b :: r) = POk (n, c1, rest1) ->
   parse_content f sc pp pl rest1 = POk (ch, c2, rest) ->
   parse_content (S f) sc pp pl (60 :: b :: r) = POk (n :: ch, c1 + c2, rest).
 Proof.
@@ -149,7 +149,7 @@ Definition elem_statement (n : xnode) : Prop :=
   forall c path P pn pa rest, wf_node P n = true -> pscope_good P ->
   match n with
   | XElem _ _ _ _ =>
-    exists f, parse_element_with (parse_content f) P (tl (render_node c path P pn pa n) ++ rest)
+    exists f, parse_element_with f (parse_content f) P (tl (render_node c path P pn pa n) ++ rest)
               = POk (n, decl_count P n, rest)
   | _ => True
   end.
@@ -287,14 +287,19 @@ Proof.
   assert (Hfuel : exists f, e = TOpen -> parse_content f sc (prefix_str pre) (xn_local nm) (more ++ rest)
                                            = POk (ch, count_children (Some sc) ch, rest)).
   { destruct e; [exists 0%nat; discriminate|]. destruct (Hcontent eq_refl) as [f Hf]. exists f. intros _. exact Hf. }
-  destruct Hfuel as [f Hf]. exists f.
+  destruct Hfuel as [f0 Hf0].
+  set (f := Nat.max f0 (S (length items))).
+  assert (Hf : e = TOpen -> parse_content f sc (prefix_str pre) (xn_local nm) (more ++ rest)
+                            = POk (ch, count_children (Some sc) ch, rest)).
+  { intros He. apply (parse_content_ok_mono f0 f _ _ _ _ _ (Hf0 He)). unfold f. lia. }
+  exists f.
   unfold parse_element_with.
   rewrite (scan_qname_render pre (xn_local nm) _ Np Nl).
   2:{ destruct items as [|it items']; cbn [render_items].
       - destruct e; cbn [tag_end_bytes app]; apply stops_name_blanks; reflexivity.
       - rewrite <- ?app_assoc. apply stops_name_blanks1. }
   cbn [of_opt pbind]. rewrite Hnx.
-  rewrite (parse_attrs_any_fuel _ _ _ (parse_attrs_items sc ec e (more ++ rest) items 0%nat Hk Hd Hitems)).
+  rewrite (parse_attrs_ok_mono _ f _ _ (parse_attrs_items sc ec e (more ++ rest) items 0%nat Hk Hd Hitems)) by (unfold f; lia).
   cbn [pbind].
   rewrite (split_attrs_items sc items [] [] Hk Hd); cbn [app]; [| rewrite MA; exact Hao | rewrite MD; exact Ok | rewrite MD; exact Od].
   cbn [of_opt pbind]. rewrite MA, MD.
